@@ -766,10 +766,13 @@ class Runner:
                 s.add(z3.ForAll([j], z3.Implies(z3.And(j >= 0, j < z3.Length(sv.t)), z3.Not(Val.is_VStr(sv.t[j])))))
             elif sv.kind == "val":
                 s.add(z3.Not(Val.is_VStr(sv.t)))
-        if s.check() != z3.sat:
-            s.pop()
+        try:
             if s.check() != z3.sat:
-                return {"status": "no-model"}
+                s.pop()
+                if s.check() != z3.sat:
+                    return {"status": "no-model"}
+        except z3.Z3Exception as e:      # (the solver gave up on this auxiliary query, e.g. under memory pressure: no witness run for this path)
+            return {"status": "no-model", "why": repr(e)[:200]}
         try:
             inputs = self.concretize(eng, c, p, s.model())
         except Exception as e:    # noqa
